@@ -76,6 +76,21 @@ theorem T20_unary_diagonal (P : Par α) {n : Nat} (hn : 1 ≤ n) (x r : Nat → 
     rw [h1, ← hlast, ← hp (n - 1) (le_refl _)]
     ring
 
+/-- **Unary loaders of every architecture stay in the one-hot subspace.**  For any list of
+RBS pairs on distinct qubits `< n` (tree, diagonal, or any other layout) the circuit
+`X(n-1); RBS(pairs[0], θ₀); RBS(pairs[1], θ₁); …` applied to `|0…0⟩` is the one-hot
+superposition whose amplitude vector is obtained by the `n`-dimensional Givens rotations
+`runAmps` — the exponentially large state never has to be built to know the result
+(the check uses this to test `unary_encoder` up to 64 qubits). -/
+theorem T20_unary_network (P : Par α) {n : Nat} (hn : 1 ≤ n) (pairs : List (Nat × Nat))
+    (hp : ∀ p ∈ pairs, p.1 ≠ p.2 ∧ p.1 < n ∧ p.2 < n) :
+    runCircuit ((({ kind := .X, q0 := n - 1 } : GD) :: rbsGates pairs).map (GD.sem P)) (ket zeroLab)
+      = ohState n (runAmps P (rbsGates pairs) (fun r => if r = n - 1 then 1 else 0)) := by
+  rw [List.map_cons, runCircuit_cons]
+  show runCircuit _ (applyGate ({ mat := matX, targets := [n - 1], controls := [] } : MGate α) _) = _
+  rw [X_ket_zero, ket_oh_eq_ohState (n := n) (by omega)]
+  exact runCircuit_rbs_network P n _ (rbsGates_valid hp) _
+
 /-! ### QFT -/
 
 /-- gate count: `n` Hadamards and `n(n-1)/2` controlled phases, i.e. `n(n+1)/2` gates,
@@ -150,7 +165,55 @@ theorem T20_ehrlich_run (fuel : Nat) (bs : List Bool) (ms : List Nat)
       ∀ st ∈ ehrlichLoop fuel bs ms, weight st.bits = weight bs ∧ st.bits.length = bs.length :=
   ehrlichLoop_chain fuel bs ms h
 
+/-! ### Hamming-weight encoder (real data): loading chain of controlled RBS gates -/
+
+/-- **Loading chain.**  Gate `k` is `RBS(a k, b k, θ_k)` controlled on the qubits `cs k`
+(exactly the gates `hamming_weight_encoder` emits for real data); `v 0, v 1, …` are the
+basis states visited (the Ehrlich strings).  If every gate finds its own string with source
+bit 1, destination bit 0 and all controls on, produces the next string by moving that bit,
+and leaves every earlier string alone (a control off, or equal target bits) — hypotheses that
+the check verifies on the real circuits for all `n ≤ 8`, every weight, with and without
+`optimize_controls` — then the state is `Σ_k (s₀⋯s_{k-1} c_k) |v k⟩ + (s₀⋯s_{m-1}) |v m⟩`. -/
+theorem T20_hw_chain (P : Par α) (a b : Nat → Nat) (cs : Nat → List Nat) (v : Nat → Lab) (m : Nat)
+    (hab : ∀ k, k < m → a k ≠ b k)
+    (hdis : ∀ k, k < m → a k ∉ cs k ∧ b k ∉ cs k)
+    (hon : ∀ k, k < m → Lab.allOne (cs k) (v k) = true ∧ v k (a k) = true ∧ v k (b k) = false)
+    (hnext : ∀ k, k < m → v (k + 1) = sw (a k) (b k) (v k))
+    (hfix : ∀ k, k < m → ∀ j, j < k → Lab.allOne (cs k) (v j) = false ∨ v j (a k) = v j (b k)) :
+    runCircuit ((List.range m).map
+        (fun k => GD.sem P { kind := .RBS, q0 := a k, q1 := b k, e := k, ctrl := cs k })) (ket (v 0))
+      = chainState P v m :=
+  crbs_chain P a b cs v m hab hdis hon hnext hfix
+
+/-- with the angles of `_generate_rbs_angles(data, "diagonal")` (`r k · cos θ_k = x k`,
+`r k · sin θ_k = r (k+1)`, `r m = x m`, `r 0 = ‖x‖`) the chain state carries the normalised
+data on the visited basis states: `‖x‖ · state = Σ_k x_k |v k⟩`. -/
+theorem T20_chain_amplitudes (P : Par α) (v : Nat → Lab) (m : Nat) (x r : Nat → α)
+    (hlast : r m = x m)
+    (hc : ∀ k, k < m → r k * P.c k = x k)
+    (hs : ∀ k, k < m → r k * P.s k = r (k + 1)) (y : Lab) :
+    r 0 * chainState P v m y = ∑ k ∈ range (m + 1), x k * ket (v k) y :=
+  chainState_norm P v m x r hlast hc hs y
+
 /-! ### non-vacuity -/
+
+/-- the hypotheses of `T20_hw_chain` hold for the 3-qubit weight-1 walk `100 → 010 → 001`
+(`RBS(0,1)` then `RBS(1,2)`, no controls). -/
+example (P : Par α) :
+    runCircuit ((List.range 2).map
+        (fun k => GD.sem P { kind := .RBS, q0 := k, q1 := k + 1, e := k, ctrl := [] })) (ket (oh 0))
+      = chainState P (fun k => oh k) 2 := by
+  apply T20_hw_chain P (fun k => k) (fun k => k + 1) (fun _ => []) (fun k => oh k) 2
+  · intro k _; exact Nat.ne_of_lt (Nat.lt_succ_self k)
+  · intro k _; simp
+  · intro k _; simp [Lab.allOne, oh]
+  · intro k _; exact (sw_oh_fst (Nat.ne_of_lt (Nat.lt_succ_self k))).symm
+  · intro k _ j hj
+    right
+    have h1 : k ≠ j := by omega
+    have h2 : k + 1 ≠ j := by omega
+    simp [oh, h1, h2]
+
 
 /-- the scalars qibo uses: `h = 1/√2`, `w e = exp(iπ/2^e)`. -/
 noncomputable def stdPar (θ : Nat → ℝ) : Par ℂ where
